@@ -26,9 +26,9 @@ IndexOf(q, e) == CHOOSE i \in 1..Len(q) : q[i] = e
 Members(q) == {q[i] : i \in 1..Len(q)}
 
 Names ==
-  CASE Kind = "vector" -> {"push", "push_move", "emplace", "pop", "resize", "resize_val", "clear",
+  CASE Kind = "vector" -> {"push", "push_alias", "push_move", "emplace", "pop", "resize", "resize_val", "clear",
                            "copy_construct", "move_construct", "copy_assign", "move_assign", "swap"}
-    [] Kind = "small_vector" -> {"push", "push_move", "emplace", "pop", "resize", "resize_val",
+    [] Kind = "small_vector" -> {"push", "push_alias", "push_move", "emplace", "pop", "resize", "resize_val",
                                  "copy_construct", "move_construct", "swap"}
     [] Kind = "dyn_array" -> {"construct_n", "set", "copy_construct", "move_construct", "copy_assign", "move_assign", "swap"}
     [] Kind = "stack" -> {"push", "emplace", "pop"}
@@ -39,6 +39,8 @@ Names ==
 Legal(op, st) ==
   LET a == st[op.d] IN
   CASE op.name \in {"push", "push_move", "emplace"} -> TRUE
+    \* push(c[0]): the argument refers to an element of the container itself (as std::vector allows)
+    [] op.name = "push_alias" -> a # <<>>
     [] op.name \in {"pop", "pop_front", "pop_back"} -> a # <<>>
     [] op.name \in {"resize", "resize_val", "construct_n", "clear"} -> TRUE
     [] op.name = "set" -> op.x \in 1..Len(a)
@@ -54,6 +56,7 @@ Eff(op, st) ==
       o == Other(op.d)
       a == st[op.d] IN
   CASE op.name \in {"push", "push_move", "emplace", "push_back"} -> [st EXCEPT ![d] = Append(a, op.x)]
+    [] op.name = "push_alias" -> [st EXCEPT ![d] = Append(a, a[1])]
     [] op.name = "pop" -> [st EXCEPT ![d] = Take(a, Len(a) - 1)]
     [] op.name = "pop_back" -> [st EXCEPT ![d] = Take(a, Len(a) - 1)]
     [] op.name = "pop_front" -> [st EXCEPT ![d] = Tail(a)]
